@@ -8,6 +8,7 @@ import ZV.Driver.C09
 import ZV.Driver.C10
 import ZV.Driver.C11
 import ZV.Driver.CK
+import ZV.Driver.ZCore
 
 def dispatch (line : String) : String :=
   match line.trimAscii.toString.splitOn " " with
@@ -17,6 +18,7 @@ def dispatch (line : String) : String :=
   | "c08" :: ws => ZV.Driver.C08.handle ws
   | "c09" :: ws => ZV.Driver.C09.handle ws
   | "c10" :: ws => ZV.Driver.C10.handle ws
+  | "zc" :: ws => ZV.Driver.ZCore.handle ws
   | "ck" :: ws => ZV.Driver.CK.handle ws
   | "c11" :: ws => ZV.Driver.C11.handle ws
   | _ => "bad-op"
